@@ -139,13 +139,17 @@ def runCycles : CState → List (Bool × Env) → List CycleOut
     (`none` = error), `storageGroups` = storage's answer to `StorageFetchConsumers` (`none` = a nil
     reply: unknown cluster).  Result: whether storage was asked at all, and the groups a
     `StorageSetDeleteGroup` request is sent for, in the order of storage's listing. -/
-def reap (name : String) (kafkaGroups storageGroups : Option (List String)) : Bool × List String :=
+def reapIgnoring (ignore : String) (kafkaGroups storageGroups : Option (List String)) : Bool × List String :=
   match kafkaGroups with
   | none => (false, [])
   | some kg =>
     match storageGroups with
     | none => (true, [])
-    | some sg => (true, sg.filter fun g => g != "burrow-" ++ name && !kg.contains g)
+    | some sg => (true, sg.filter fun g => g != ignore && !kg.contains g)
+
+/-- … with the group the module spares: its own progress group `burrow-<name>` -/
+def reap (name : String) (kafkaGroups storageGroups : Option (List String)) : Bool × List String :=
+  reapIgnoring ("burrow-" ++ name) kafkaGroups storageGroups
 
 /-- what the main loop's `select` can receive (the quit channel ends the run and is not an event) -/
 inductive Tick where
